@@ -270,7 +270,12 @@ fn main() {
                 let mut buf = vec![0u8; want];
                 let t0 = now();
                 let n = unsafe { libc::read(0, buf.as_mut_ptr() as *mut _, want) };
-                if n <= 0 {
+                if n < 0 {
+                    // (a read that FAILS -- the script closed its own stdin before -- is not end-of-file: the child did not
+                    // read its input to the end)
+                    return false;
+                }
+                if n == 0 {
                     if !*eof_seen {
                         *eof_seen = true;
                         let t1 = now();
